@@ -397,10 +397,26 @@ func (e *Exec) contractCall(ins ssa.Instruction, key string, fc *FuncContract, s
 	}
 	if !e.specMode {
 		for k, cl := range fc.Requires {
-			env.polarity = polProve
-			g := env.evalBool(cl.Expr)
-			e.addObl("pre", fmt.Sprintf("%s@%d/%s", shortKey(key), ord, clauseLabel(cl, k)), cl.Text, root.defaultProps, st, g, ins.Pos())
-			e.ctx.assume(Imp(st.pc, g))
+			// one obligation per conjunct (predicates unfolded), as for postconditions
+			parts := e.splitConj(env, cl.Expr, nil, 0)
+			for pi, pt := range parts {
+				pe := *env
+				pe.vars = pt.vars
+				pe.site = pt.site
+				if pt.pkg != nil {
+					pe.pkg = pt.pkg
+				}
+				pe.polarity = polProve
+				g := pe.evalBool(pt.x)
+				label := fmt.Sprintf("%s@%d/%s", shortKey(key), ord, clauseLabel(cl, k))
+				text := cl.Text
+				if len(parts) > 1 {
+					label = fmt.Sprintf("%s.%d", label, pi+1)
+					text = pt.x.String() + "   [part of: " + cl.Text + "]"
+				}
+				e.addObl("pre", label, text, root.defaultProps, st, g, ins.Pos())
+				e.ctx.assume(Imp(st.pc, g))
+			}
 		}
 	}
 	// hand-off accounting for parameters the callee completes exactly once: the callee either
@@ -836,6 +852,16 @@ func (e *Exec) siteAsserts(ins ssa.Instruction, callee string, args []Value, st 
 		label := sa.Clause.Label
 		if label == "" {
 			label = fmt.Sprintf("%s:%s", when, sa.Pattern)
+			// several unlabelled clauses on the same site: number the later ones
+			nth := 0
+			for aj, other := range root.fc.Asserts {
+				if aj < ai && other.Clause.Label == "" && other.Pattern == sa.Pattern && other.When == sa.When && other.LetName == "" && !other.Assume {
+					nth++
+				}
+			}
+			if nth > 0 {
+				label = fmt.Sprintf("%s/%d", label, nth+1)
+			}
 		}
 		e.addObl("assert", fmt.Sprintf("%s#%d", label, ord), sa.Clause.Text, root.fc.clauseProps(sa.Clause), st, g, ins.Pos())
 		e.ctx.assume(Imp(st.pc, g))
